@@ -236,6 +236,11 @@ func (b *StatefulBlock[I, O, A]) verifyWithContext(ctx context.Context, pChainCt
 			zap.Uint64("height", b.Input.GetHeight()),
 			zap.Stringer("blkID", b.Input.GetID()),
 		)
+		// The engine has now verified this block too: tell the verified subscribers, exactly
+		// as for a block that was verified after parsing.
+		if err := event.NotifyAll[O](ctx, b.Output, b.vm.verifiedSubs...); err != nil {
+			return err
+		}
 	default:
 		b.vm.log.Info("Verifying block", zap.Stringer("block", b))
 		// Fetch my parent to verify against
